@@ -31,9 +31,14 @@ class C30(C28):
             if hydro.broken(res) or len(res["ticks"]) != len(case["ticks"]):
                 return 3
             return "(chk30_loop t_cycle_body %s %s)" % (hydro.g_ticks(case), hydro.g_impl(res))
+        tr = self.translate()
+        flow = case["flow"]
         if case.get("k") == "syntax":
-            return hydro.emit_term(case["flow"], res, fn="chk_bemit")
-        return hydro.case_term(self.fn, case, res)
+            return 1 if flow in tr.failed else hydro.emit_term_named(flow, tr.name(flow), res, fn="chk_bemit")
+        if hydro.broken(res) or len(res["ticks"]) != len(case["ticks"]):
+            return 3
+        term = "(%s %s %s %s)" % (self.fn, tr.name(flow), hydro.g_ticks(case), hydro.g_impl(res))
+        return tr.wrap(flow, case, term)
 
     def extra(self):
         e = super().extra()
